@@ -51,6 +51,7 @@ type c19create struct {
 	client int64
 	node   int
 	sub    string // subdomain exactly as the client spelled it
+	stored string // full domain exactly as the server's create response spelled it ("" if none)
 	name   string // canonical (lower-case) full domain
 	thost  string
 	tport  int
@@ -274,6 +275,7 @@ func (cw *c19world) doCreate(actor string, client int64, n *c19node, sub string,
 	} else {
 		x.ok = resp.Success && r.Success
 		x.id = r.MappingID
+		x.stored = r.FullDomain
 		x.errText = r.Error
 		if x.ok && x.id == "" {
 			w.Violationf("C19:create:success-without-id", "create %s by client %d answered success without a mapping id", x.name, client)
@@ -990,7 +992,10 @@ overlapScan:
 					class = "repository-claim-over-legacy-owner"
 				case y.legacy:
 					class = "legacy-claim-over-repository-owner"
-				case x.sub != y.sub:
+				case x.sub != y.sub && x.stored != y.stored:
+					// the server itself answered two differently spelled full domains: it keeps the two
+					// spellings as two names. When it folds both requests to one stored name the spelling
+					// is incidental and the pair is classified like any other (concurrent / sequential).
 					class = "case-variant-spellings"
 				}
 				w.Violationf(sig("owner", "two-owners", class),
